@@ -33,6 +33,19 @@ Definition amem {V} (m : amap V) (k : N) : bool := match aget m k with Some _ =>
 Definition get2 {V} (m : amap (amap V)) (a b : N) : option V :=
   match aget m a with Some r => aget r b | None => None end.
 
+(* m[a][b] = v on a map of maps (the inner map is created on demand) *)
+Definition set2 {V} (m : amap (amap V)) (a b : N) (v : V) : amap (amap V) :=
+  aset m a (aset (match aget m a with Some r => r | None => [] end) b v).
+(* delete(m[a], b); if len(m[a]) == 0 { delete(m, a) } *)
+Definition vdel2 {V} (m : amap (amap V)) (a b : N) : amap (amap V) :=
+  match aget m a with
+  | Some u => match adel u b with
+              | [] => adel m a
+              | u' => aset m a u'
+              end
+  | None => m
+  end.
+
 (* ------------------------------------------------------------------ observations *)
 Inductive ret := RNone | RKey (k : N) | RErr (e : N) | RHang.
 (* error classes *)
@@ -106,22 +119,13 @@ Definition v_with (st : vst) (al : amap (N * N)) (us : amap (amap N)) (cur : N) 
   {| v_cfg := v_cfg st; v_alloc := al; v_usage := us; v_cur := cur; v_ntes := v_ntes st; v_probe := v_probe st |}.
 
 Definition v_record (st : vst) (n s c : N) : vst :=
-  let u := match aget (v_usage st) s with Some u => u | None => [] end in
-  v_with st (aset (v_alloc st) n (s, c)) (aset (v_usage st) s (aset u c n)) (v_cur st).
+  v_with st (aset (v_alloc st) n (s, c)) (set2 (v_usage st) s c n) (v_cur st).
 
 (* releaseUnlocked *)
 Definition v_release (st : vst) (n : N) : vst :=
   match aget (v_alloc st) n with
   | None => st
-  | Some (s, c) =>
-      let us := match aget (v_usage st) s with
-                | Some u => match adel u c with
-                            | [] => adel (v_usage st) s
-                            | u' => aset (v_usage st) s u'
-                            end
-                | None => v_usage st
-                end in
-      v_with st (adel (v_alloc st) n) us (v_cur st)
+  | Some (s, c) => v_with st (adel (v_alloc st) n) (vdel2 (v_usage st) s c) (v_cur st)
   end.
 
 (* LoadFromStore, one NTE record; the bool says "skipped as conflicting / out of range" *)
